@@ -6,6 +6,7 @@ import (
 	"encoding/json"
 	"fmt"
 	"os"
+	"os/exec"
 	"path/filepath"
 	"sort"
 	"strconv"
@@ -14,6 +15,18 @@ import (
 )
 
 const concNativeAttempts = 6
+
+// sourceTreeID names the tree the encoding was generated from: directory, HEAD and whether the
+// working tree differs from it.
+func sourceTreeID() string {
+	head, _ := exec.Command("git", "-C", repoDir, "rev-parse", "--short", "HEAD").Output()
+	st, _ := exec.Command("git", "-C", repoDir, "status", "--porcelain", "--untracked-files=no").Output()
+	id := repoDir + " @ " + strings.TrimSpace(string(head))
+	if len(strings.TrimSpace(string(st))) > 0 {
+		id += " + uncommitted changes"
+	}
+	return id
+}
 
 type CheckDef struct {
 	Property    string
@@ -563,6 +576,7 @@ func cmdCheck(args []string) int {
 			"discharged_by_normalisation":   tot.Asserts - tot.Obligations,
 			"instructions_interpreted":      tot.Steps,
 			"functions_encoded":             funcs,
+			"source_tree":                   sourceTreeID(),
 			"asm_encoded":                   asmInfo,
 			"bounds":                        def.Bounds(tier),
 			"outside_bounds":                def.Outside,
